@@ -80,6 +80,19 @@ func substExpr(e ast.Expr, env map[string]ast.Expr) ast.Expr {
 		c.X = substExpr(x.X, env)
 		c.Y = substExpr(x.Y, env)
 		return &c
+	case *ast.SliceExpr:
+		c := *x
+		c.X = substExpr(x.X, env)
+		if x.Low != nil {
+			c.Low = substExpr(x.Low, env)
+		}
+		if x.High != nil {
+			c.High = substExpr(x.High, env)
+		}
+		if x.Max != nil {
+			c.Max = substExpr(x.Max, env)
+		}
+		return &c
 	}
 	return e
 }
